@@ -188,7 +188,15 @@ impl Property for C01 {
 
     fn render(&self, family: &str, bytes: &[u8]) -> String {
         match self.case(family, bytes) {
-            Some((s, _, n, _)) => format!("{}\n{}", n, if s.len() > 3000 { s[..3000].to_string() } else { s }),
+            Some((s, _, n, _)) => format!("{}\n{}", n, if s.len() > 3000 {
+                let mut cut = 3000;
+                while !s.is_char_boundary(cut) {
+                    cut -= 1;
+                }
+                s[..cut].to_string()
+            } else {
+                s
+            }),
             None => "<skipped combination>".into(),
         }
     }
